@@ -10,7 +10,7 @@ LEVEL = 'exploration'
 RULE = ('Hypothesis draws max_http_buffer_size from {1, 2, 5, 16, 100, 1000, default}, a carrier '
         '{POST body (plain or the JSONP form d=...), frame on an established WebSocket (ws-first or upgraded), first frame and '
         'second frame of an upgrade socket}, a length from {limit-2..limit+2, 0, 1, 10*limit}, '
-        'text, binary or base64-text (b...) content, a declared Content-Length smaller / equal / larger than the body, '
+        'text, binary or base64-text (b...) content, a declared Content-Length smaller / equal / larger than the body or none at all (chunked), '
         'the configured per-body packet limit {16 (default), 1, 4, 40} and the number of packets in the body 0..limit+2, and the number of body chunks; each case runs on a '
         'fresh world of either server. Oracle: no message event from a body declared over the '
         'limit or from a frame longer than it; every wsgi.input.read(n) has 0 <= n <= min(declared, '
@@ -51,7 +51,7 @@ def case_st(draw):
         case['chunks'] = 1
     if carrier == 'post':
         case['declared'] = draw(st.sampled_from(['equal', 'equal', 'equal', 'smaller', 'larger',
-                                                 'over-limit', 'at-limit']))
+                                                 'over-limit', 'at-limit', 'absent']))
         case['chunks'] = draw(st.sampled_from([1, 1, 2, 5]))
     if carrier == 'post-many':
         # the per-body packet limit is configuration too (Payload.max_decode_packets)
@@ -154,6 +154,33 @@ def check_case(case, ctx=None):
                     raise V(impl, 'body-within-limit-not-processed', trig,
                             'form body of %d bytes: message events %r' % (
                                 size, [str(m)[:20] for m in msgs()]), rep)
+        elif carrier == 'post' and case['declared'] == 'absent':
+            # no Content-Length at all (a chunked body): nothing is declared, the limit alone
+            # bounds what may be read, and an oversize body never reaches a handler
+            size = case['size']
+            body = ascii_packet(size).encode() if size >= 1 else b''
+            r = w.http('POST', 'transport=polling&EIO=4&sid=' + sid, body=body, declared='absent',
+                       chunks=case['chunks'], headers=[('Host', 'localhost'),
+                                                       ('Transfer-Encoding', 'chunked')])
+            w.settle()
+            trig = 'post|no-content-length|size-limit=%s' % rel(size, L)
+            if impl == 'thread':
+                for n in r.reads:
+                    if not isinstance(n, int) or n < 0 or n > L:
+                        raise V(impl, 'body-read-beyond-bound', 'wsgi-read|no-content-length',
+                                'wsgi.input.read(%r) without a declared length, limit %d' % (
+                                    n, L), rep)
+            else:
+                for k, held in enumerate(r.pulls[1:], 1):
+                    if held >= L:
+                        raise V(impl, 'body-read-beyond-bound',
+                                'asgi-receive-until-no-more-body|no-content-length',
+                                'receive() call #%d for more body with %d bytes already held, '
+                                'limit %d' % (k + 1, held, L), rep)
+            if size > L and msgs():
+                raise V(impl, 'oversize-body-reached-handler', trig,
+                        'undeclared body of %d > limit %d but message events %r' % (
+                            size, L, [str(m)[:20] for m in msgs()]), rep)
         elif carrier == 'post':
             size = case['size']
             body = ascii_packet(size).encode() if size >= 1 else b''
